@@ -404,14 +404,46 @@ def _check_delay_guard(run: Run, dfl: Flow, param: str | None, mode: str,
                 continue  # a delay helper: its own sleep is checked in its own body
             arg = positional(c, ["delay", "result"]).get("delay")
             src = dfl.expand(i, arg) if arg is not None else None
-            if src is None or not any(isinstance(x, ast.Attribute) and x.attr == "RESTART_DELAY"
-                                      for x in ast.walk(src)):
+            reads = [] if src is None else [x for x in ast.walk(src)
+                                            if isinstance(x, ast.Attribute) and x.attr == "RESTART_DELAY"]
+            if not reads:
                 ok = False
                 detail = "sleep duration does not derive from RESTART_DELAY"
+                continue
+            # ... of *this* actor: the attribute is looked up through the instance (or its dynamic class), not
+            # through a class named in the source, which freezes the value of that class
+            frozen = [o for o in (_named_owner(dfl.fn.node, x.value) for x in reads) if o]
+            if frozen:
+                ok = False
+                wit = None
+                detail = (f"the restart delay is read as `{frozen[0]}.RESTART_DELAY`, through a class named in the "
+                          "source instead of through the actor (`self.RESTART_DELAY`): an actor class that overrides "
+                          "RESTART_DELAY -- or an instance that sets it -- is restarted with the delay of "
+                          f"`{frozen[0]}`: re-invoked before its own restart delay has elapsed, or much later.  The "
+                          "configuration of the restart policy (RESTART_DELAY like _restart_limit) must be read from "
+                          "the actor being restarted, at every place the policy consults it")
     what = "always" if param is None else f"iff {param} > 0"
     run.check(ok, "C10.RESTART", dfl.qual, "restart delay guard", detail, node=dfl.fn.node,
               file=dfl.file, path=dfl.fmt(wit),
               instance=f"{dfl.qual}: sleeps RESTART_DELAY {what}")
+
+
+def _named_owner(fn_node: ast.AST, base: ast.AST) -> str | None:
+    """The owner expression of an attribute read when it is rooted in a name that is neither a parameter
+    nor a local of the function (a class or module named in the source: `Actor`, `_actor.Actor`), else None
+    (`self`, `type(self)`, `self.__class__`, a local bound to any of them: looked up dynamically)."""
+    root = base
+    while isinstance(root, (ast.Attribute, ast.Subscript)):
+        root = root.value
+    if not isinstance(root, ast.Name):
+        return None  # type(self), super(), ...: dispatches on the object
+    own = {"self", "cls"}
+    args = getattr(fn_node, "args", None)
+    if isinstance(args, ast.arguments):
+        own |= {a.arg for a in args.posonlyargs + args.args + args.kwonlyargs}
+        own |= {a.arg for a in (args.vararg, args.kwarg) if a is not None}
+    own |= {x.id for x in ast.walk(fn_node) if isinstance(x, ast.Name) and isinstance(x.ctx, ast.Store)}
+    return None if root.id in own else u(base)
 
 
 def _is_plus_one(stmt: ast.AST | None, name: str) -> bool:
@@ -1402,6 +1434,87 @@ def check_subclasses(run: Run, prog: Program) -> None:
 
 
 # ---------------------------------------------------------------------------------------------
+_REMOVERS = {"clear", "pop", "remove", "discard", "difference_update", "intersection_update",
+             "symmetric_difference_update", "__isub__", "__iand__", "__ixor__"}
+
+
+def _task_set_names(fn_node: ast.AST) -> set[str]:
+    """Spellings of the service's task set inside one method: `self._tasks`, the `tasks` property that returns it,
+    and locals bound to either (also inside closures / lambdas of the method)."""
+    names = {TASKS, "self.tasks"}
+    changed = True
+    while changed:
+        changed = False
+        for n in ast.walk(fn_node):
+            tgt = val = None
+            if isinstance(n, ast.Assign) and len(n.targets) == 1:
+                tgt, val = n.targets[0], n.value
+            elif isinstance(n, (ast.AnnAssign, ast.NamedExpr)):
+                tgt, val = n.target, n.value
+            if isinstance(tgt, ast.Name) and val is not None and tgt.id not in names \
+                    and u(strip_wrappers(val)) in names and not isinstance(strip_wrappers(val), ast.Call):
+                names.add(tgt.id)
+                changed = True
+    return names
+
+
+def check_ledger(run: Run, prog: Program) -> None:
+    """C10.LEDGER: `_tasks` is the ledger wait() reads the outcomes from -- nothing but wait() takes a task out of it.
+
+    wait() (hence stop(), __aexit__, `await service`) surfaces the error of a task when it removes the task from
+    `self._tasks`, after `task.result()`.  A task that leaves the set any other way takes its outcome with it: a later
+    stop() finds the set empty and returns, a later wait() skips its loop -- "after completion" is one of the instants
+    of the quantifier.  The direct forms in subclass methods (`self._tasks.discard(t)`, re-binding) are C10.SUPER; this
+    clause closes the indirect ones, in *every* method of BackgroundService and of its subclasses:
+      * a bound remover of the task set that is not called on the spot but handed over
+        (`task.add_done_callback(self._tasks.discard)`, `loop.call_soon(self._tasks.clear)`, `functools.partial(...)`);
+      * a remover called from a closure / lambda of a subclass method (`lambda t: self._tasks.discard(t)`), which the
+        statement-level rule does not enter;
+      * either of them through an alias of the set (`tasks = self._tasks`, the `tasks` property)."""
+    bgs = prog.cls(BGS)
+    n_methods = 0
+    bad = 0
+    for c in [bgs] + prog.subclasses(bgs):
+        for m in c.methods.values():
+            n_methods += 1
+            names = _task_set_names(m.node)
+            callees = {id(x.func) for x in ast.walk(m.node) if isinstance(x, ast.Call)}
+            top_level = {id(x) for x in body_walk(m.node)}
+            for x in ast.walk(m.node):
+                if isinstance(x, ast.Attribute) and x.attr in _REMOVERS and u(x.value) in names \
+                        and id(x) not in callees:
+                    bad += 1
+                    run.violation(
+                        "C10.LEDGER", m.qual, x,
+                        f"`{u(x)}` -- a remover of the service's task set -- is handed over instead of being called "
+                        "(a done-callback, call_soon, partial, ...): tasks then leave `_tasks` when they finish, not "
+                        "when wait() has read their result.  `_tasks` is not only the reference that keeps the tasks "
+                        "alive, it is the ledger from which wait() (and so stop(), __aexit__, `await service`) collects "
+                        "the outcomes: a task -- the actor's run loop -- that ends while nobody is suspended in wait() "
+                        "takes its error with it; a later stop() finds the set empty and returns, a later wait() skips "
+                        "its loop, and the error the actor died of (restart limit reached, a BaseException) is never "
+                        "surfaced.  Only wait() may take tasks out of the set, and only those whose result it has read "
+                        "(the same holds for `lambda t: self._tasks.discard(t)`, for remove/pop/clear/"
+                        "difference_update, for an alias of the set and for the `tasks` property)",
+                        node=x, file=m.file)
+                elif isinstance(x, ast.Call) and isinstance(x.func, ast.Attribute) and x.func.attr in _REMOVERS \
+                        and u(x.func.value) in names and c is not bgs \
+                        and not (id(x) in top_level and u(x.func.value) == TASKS):  # (that one: C10.SUPER)
+                    bad += 1
+                    where = "a closure / lambda of the method" if id(x) not in top_level else "an alias of the set"
+                    run.violation(
+                        "C10.LEDGER", m.qual, x,
+                        f"`{u(x)[:80]}` ({where}) takes tasks out of the service's task set outside wait(): whenever it "
+                        "runs -- typically as a done-callback, when the task finishes -- the task leaves the ledger "
+                        "together with its outcome; a stop()/wait()/__aexit__ that comes after the task has ended "
+                        "finds nothing to report and the task's non-cancellation error is never surfaced.  Only "
+                        "wait() may remove tasks, after it has read their result", node=x, file=m.file)
+    if not bad:
+        run.ok("C10.LEDGER", f"{BGS} and its {len(prog.subclasses(bgs))} subclasses: no remover of the task set is handed "
+               "over as a callback or called from a closure / through an alias", f"{n_methods} method(s) read")
+
+
+# ---------------------------------------------------------------------------------------------
 def _wait_task_of(elt: ast.AST, var: str) -> bool:
     """`create_task(<var>.wait(), ...)`: exactly one task that awaits the actor."""
     return (isinstance(elt, ast.Call) and callee_tail(elt) == "create_task" and bool(elt.args)
@@ -1604,6 +1717,15 @@ CONTROLS = [
      "    except BaseException:  # pylint: disable=broad-except\n        pass\n", "C10.STOP"),
     ("cancel_and_await without cancel()", "_internal._asyncio",
      "    task.cancel()\n    try:\n        await task\n", "    try:\n        await task\n", "C10.STOP"),
+    ("run-loop task forgets itself when done (lambda done-callback)", "actor._actor",
+     "        self._tasks.add(asyncio.create_task(self._run_loop()))\n",
+     "        loop_task = asyncio.create_task(self._run_loop())\n        self._tasks.add(loop_task)\n"
+     "        loop_task.add_done_callback(lambda t: self._tasks.remove(t))\n", "C10.LEDGER"),
+    ("bound remover of the task set handed to call_soon in cancel()", "actor._background_service",
+     "            task.cancel(msg)\n",
+     "            task.cancel(msg)\n        asyncio.get_running_loop().call_soon(self.tasks.clear)\n", "C10.LEDGER"),
+    ("restart delay read from the named base class", "actor._actor",
+     "delay = self.RESTART_DELAY.total_seconds()", "delay = Actor.RESTART_DELAY.total_seconds()", "C10.RESTART"),
 ]
 
 
@@ -1614,6 +1736,7 @@ def run_rules(run: Run, prog: Program) -> None:
     check_stop(run, prog)
     check_cancel_and_await(run, prog)
     check_subclasses(run, prog)
+    check_ledger(run, prog)
     check_run_utils(run, prog)
 
 
@@ -1631,6 +1754,9 @@ def check(run: Run, prog: Program, tier: str) -> str:
              "non-cancellation errors; wait() loops until no task is left, collecting every error")
     run.rule("C10.SUPER", "BackgroundService subclasses call the base stop/cancel/wait and register "
              "every task they create in self._tasks")
+    run.rule("C10.LEDGER", "`_tasks` is the ledger wait() reads task outcomes from: no remover of the set is handed over "
+             "as a callback (done-callback that discards the finished task), called from a closure or through an alias "
+             "-- only wait() removes tasks, after reading their result")
     run.rule("C10.RUN", "run() starts stopped actors, awaits one task per actor, loops until none pending")
     run_rules(run, prog)
     run.floor("C10.RESTART", 8)
